@@ -103,7 +103,16 @@ example : ¬ fires .overlappingFieldsCanBeMerged exSchema [q [fld none 20 [fld (
 example : fires .overlappingFieldsCanBeMerged exSchema
     [q [fld none 20 [fld (some 42) 28 [fld (some 44) 24 []], fld (some 42) 28 [fld (some 44) 26 []]]]] := by decide +kernel
 
-/-- the document of finding F15 (a):
+-- the repaired order dependence (e97c627): { h { t: self { x: name ...A ...F } } }  A { ...G1 }  F { ...G1 ...G2 }  G1 { nn }  G2 { x: nn }
+-- (ids: A=54 F=56 G1=58 G2=60) is reported whichever way F lists its spreads
+example : fires .overlappingFieldsCanBeMerged exSchema
+    [q [fld none 20 [fld (some 42) 28 [fld (some 44) 24 [], spr 54, spr 56]]],
+     frag 54 [spr 58], frag 56 [spr 58, spr 60], frag 58 [fld none 26 []], frag 60 [fld (some 44) 26 []]] := by decide +kernel
+example : fires .overlappingFieldsCanBeMerged exSchema
+    [q [fld none 20 [fld (some 42) 28 [fld (some 44) 24 [], spr 54, spr 56]]],
+     frag 54 [spr 58], frag 56 [spr 60, spr 58], frag 58 [fld none 26 []], frag 60 [fld (some 44) 26 []]] := by decide +kernel
+
+/-- the document of finding F15:
     `{ h { g: self { nn } g: self { ...F2 } t: self { x: name } t: self { ...F2 } } }
      fragment F2 on H { ...F3 }  fragment F3 on H { x: nn }` -/
 def f15Doc : Document :=
